@@ -500,8 +500,13 @@ pub fn build_file(
 		raw.extend_from_slice(&buf);
 		ev_bufs.push(buf);
 	}
-	for _ in 0..junk {
-		let b = r.byte();
+	// junk is bytes that are NOT a declared event: it begins with a code the payload table does not list (the reader
+	// walks the declared events after Game End; what follows an undeclared code is extra content)
+	for k in 0..junk {
+		let mut b = r.byte();
+		if k == 0 {
+			b = (1u8..0x10).find(|c| !tbl.iter().any(|(tc, _)| tc == c)).unwrap_or(0x01);
+		}
 		raw.push(b);
 	}
 
